@@ -1,8 +1,12 @@
 // ---- frag/channel_cp_trusted.rs ----
 impl Channel {
 //@fn vls-core/src/channel.rs :: impl Channel :: make_counterparty_commitment_tx mode=trusted
+    requires commitment_number <= INITIAL_COMMITMENT_NUMBER,
     ensures r == cp_ctx_spec(self.keys, self.setup, *remote_per_commitment_point, commitment_number, feerate_per_kw,
         to_holder_value_sat, to_counterparty_value_sat, htlcs@),
+        // make_counterparty_commitment_tx_with_keys hands LDK INITIAL_COMMITMENT_NUMBER - n and keys derived for this point
+        ctx_commitment_number(r) == INITIAL_COMMITMENT_NUMBER - commitment_number,
+        ctx_keys(r).per_commitment_point == *remote_per_commitment_point,
 //@end
 }
 impl CounterpartyCommitmentSecrets {
@@ -24,5 +28,9 @@ impl VxValidator {
 //@include frag/c/sv_validate_counterparty_revocation.rs
 //@end
 //@fn vls-core/src/policy/simple_validator.rs :: impl Validator for SimpleValidator :: validate_channel_value mode=trusted
+//@end
+    // phase-1 decoder (tx/tx.rs script templates): only the two values it returns are used, and the recomposition
+    // equality below makes decoder errors fail closed
+//@fn vls-core/src/policy/simple_validator.rs :: impl Validator for SimpleValidator :: decode_commitment_tx mode=trusted
 //@end
 }
